@@ -291,10 +291,55 @@ Proof.
     + unfold guesser_view. simpl. rewrite nth_error_map, Hk. reflexivity.
     + apply map_fst_combine. exact Hlen.
     + apply Forall2_lt_combine. exact Hlt.
-  - unfold segs_of. simpl. rewrite Hk. simpl. rewrite (map_snd_combine vs idxs Hlen).
-    subst s. unfold denote. apply product_In. rewrite Forall2_map_r in Hseg |- *.
-    rewrite Forall2_map_l in Hseg. rewrite Forall2_map_l. exact Hseg.
+  - unfold segs_of. simpl. rewrite Hk. simpl. assert (Ems : @map (prod var nat) nat (@snd var nat) (@combine nat nat vs idxs) = idxs)
+      by (apply (@map_snd_combine nat nat); exact Hlen).
+    rewrite Ems.
+    subst s. unfold denote. apply product_In. clear -Hseg.
+    induction Hseg; simpl; constructor; assumption.
   - simpl. rewrite find_prob_Q_factor, Hprod, Hp. reflexivity.
 Qed.
 
 End Tie.
+
+(* ---- correspondence helpers: the view against what the real guesser loaded
+   (variable name -> groups of (probability, values); base structures as lists
+   of variable names), with the floats of the files as exact rationals *)
+
+Definition label_keys (l : label) : list vkey :=
+  match l with
+  | LK n => [VK n] | LY => [VY] | LX => [VX] | LA n => [VA n; VC n] | LD n => [VD n] | LO n => [VO n]
+  | LE | LW => []
+  end.
+
+Lemma label_vars_keys rs l : label_keys l <> [] -> label_vars rs l = map (vid rs) (label_keys l).
+Proof. destruct l; simpl; intros H; try reflexivity; congruence. Qed.
+
+Fixpoint list_eqb {X} (e : X -> X -> bool) (a b : list X) : bool :=
+  match a, b with
+  | [], [] => true
+  | x :: a', y :: b' => e x y && list_eqb e a' b'
+  | _, _ => false
+  end.
+
+Definition group_eqb (a b : Q * list Str.str) : bool := Qeq_bool (fst a) (fst b) && list_eqb str_eqb (snd a) (snd b).
+
+Definition var_present (rs : rsQ) (k : vkey) : bool :=
+  match vfind k (gvars rs) 0 with Some _ => true | None => false end.
+
+Definition check_var (rs : rsQ) (x : vkey * list (Q * list Str.str)) : bool :=
+  var_present rs (fst x) && list_eqb group_eqb (key_groups rs (fst x)) (snd x) &&
+  list_eqb group_eqb (snd (nth (vid rs (fst x)) (gvars rs) (fst x, []))) (snd x).
+
+Definition check_base (rs : rsQ) (b : list label * Q) (x : list vkey * Q) : bool :=
+  list_eqb vkey_eqb (flat_map label_keys (fst b)) (fst x) && Qeq_bool (snd b) (snd x).
+
+Definition failing_idx {X} (f : X -> bool) (l : list X) : list nat :=
+  map fst (filter (fun kx => negb (f (snd kx))) (combine (seq 0 (length l)) l)).
+
+(* indices of variables that differ, then 1000 + indices of base structures that differ *)
+Definition gview_check (rs : rsQ) (vars : list (vkey * list (Q * list Str.str))) (bases : list (list vkey * Q)) : list nat :=
+  failing_idx (check_var rs) vars ++
+  (if Nat.eqb (length (r_bases Q rs)) (length bases)
+   then map (fun i => (1000 + i)%nat)
+            (failing_idx (fun bx => check_base rs (fst bx) (snd bx)) (combine (r_bases Q rs) bases))
+   else [999%nat]).
